@@ -35,7 +35,7 @@ def report_notimpl(run, meta):
 
 def collect(run, rng, nworlds, nqueries, mode, thresholds_fn, quality, nsteps=(4, 14), ndocs=(4, 12), depth=2,
             scored_only=True, ops=NOFUZZY, spans=False, docgen=None, qgen=None, plangen=None, qbias=0.0,
-            blocklimits=(None, 1, 2, 3), nested=False, sweep=False):
+            blocklimits=(None, 1, 2, 3), nested=False, sweep=False, weighting=None):
     """Returns (traces, meta, listcases)."""
     trs, meta, cases = [], [], []
     for wi in range(nworlds):
@@ -51,7 +51,7 @@ def collect(run, rng, nworlds, nqueries, mode, thresholds_fn, quality, nsteps=(4
         il = rng.choice([None, None, 3, 5])
         w = world.World(adocs, plan, storage="ram", blocklimit=rng.choice(list(blocklimits)), inlinelimit=il)
         try:
-            wname, wobj = rng.choice(weightings(mode))
+            wname, wobj = weighting or rng.choice(weightings(mode))
             with w.ix.searcher(weighting=wobj) as s:
                 idx = w.abstract_index(s.reader())
                 qs = []
